@@ -98,8 +98,23 @@ theorem C11_no_inversion_pos (m : Model) (lg : Logs) (rule : TaskRule) (l : Live
     canAdd m (allocate m lg rule l) t1 (some w) Option.none = false := by
   apply C11_no_inversion m lg rule l t1 t2 w ?_ hna hnf hnew hold hskill hteam
   rw [hsorted]
-  exact (List.sublist_append_right pre _).trans'
-    (List.Sublist.cons_cons t1 (List.singleton_sublist.mpr h2)) |> fun h => h
+  exact (List.Sublist.cons_cons t1 (List.singleton_sublist.mpr h2)).trans
+    (List.sublist_append_right pre _)
+
+/-- **C11, no inversion, in one loop step.**  On a working step (`s.time` is not a project absence
+time) the allocation pass runs on the state after the absence update, whose candidate order is
+that of `s.live` with the logs `s.logs`.  If `t1` comes before `t2` in that order, `t1` is not
+automatic and needs no facility, `w` is held by `t2` at the end of the step but was not before,
+and `w` is eligible for `t1`, then at the end of the step `t1` cannot accept `w`. -/
+theorem C11_no_inversion_step (m : Model) (p : Params) (s : St)
+    (hwork : p.absence.contains s.time = false) (t1 t2 w : Nat)
+    (hord : List.Sublist [t1, t2] (sortTasks m s.live s.logs p.rule (NoWait.cands m s.live)))
+    (hna : (m.task t1).isAuto = false) (hnf : (m.task t1).needFac = false)
+    (hnew : w ∈ (stepBody m p s).live.allocW t2) (hold : w ∉ s.live.allocW t2)
+    (hskill : hasSkill (m.worker w).skills (m.task t1).name = true)
+    (hteam : teamTargets m w t1 = true) :
+    canAdd m (stepBody m p s).live t1 (some w) Option.none = false :=
+  NoWait.stepBody_no_inversion m p s hwork t1 t2 w hord hna hnf hnew hold hskill hteam
 
 namespace C11InvEx
 
@@ -144,6 +159,14 @@ example : List.Sublist [0, 1]
     (sortTasks C11InvEx.m C11InvEx.l Logs.empty .tslack (NoWait.cands C11InvEx.m C11InvEx.l)) := by
   decide +kernel
 
+/-- … and the same picture at the end of the whole step (`C11_no_inversion_step`) -/
+example :
+    ({} : Params).absence.contains ({ St.fresh with live := C11InvEx.l } : St).time = false ∧
+    (stepBody C11InvEx.m {} { St.fresh with live := C11InvEx.l }).live.allocW 1 = [1] ∧
+    canAdd C11InvEx.m (stepBody C11InvEx.m {} { St.fresh with live := C11InvEx.l }).live 0 (some 1)
+      Option.none = false := by
+  decide +kernel
+
 #print axioms C11_sorted_nodup
 #print axioms C11_allocate_order
 #print axioms C11_before_priority
@@ -151,5 +174,6 @@ example : List.Sublist [0, 1]
 #print axioms C11_no_inversion
 #print axioms C11_no_inversion'
 #print axioms C11_no_inversion_pos
+#print axioms C11_no_inversion_step
 
 end PDesy
